@@ -132,6 +132,13 @@ func (c *controller) SetBalancer(l log.Logger, name string, svcRo *v1.Service, _
 	if !reflect.DeepEqual(toWrite, svcRo) {
 		if err := c.client.UpdateStatus(svc); err != nil {
 			level.Error(l).Log("op", "updateServiceStatus", "error", err, "msg", "failed to update service")
+			if syncStateRes == controllers.SyncStateReprocessAll {
+				// The addresses are already given up in memory: a retry of
+				// this service alone would not see a release any more, and
+				// the services waiting for them would never be reprocessed.
+				// The full pass retries this service as well.
+				return controllers.SyncStateReprocessAll
+			}
 			return controllers.SyncStateError
 		}
 		level.Info(l).Log("event", "serviceUpdated", "msg", "updated service object")
